@@ -67,6 +67,11 @@ const (
 	c04taNEdits
 )
 
+// c04taPrior: 0 = the carrier is the only use of its generics; 1 / 2 = the protocol also uses every generic of the family with
+// primitive arguments, in a step BEFORE / AFTER the carrier (the target is then reached only through a second / an
+// earlier instantiation of the same generic)
+var c04taPrior int
+
 type c04taModel struct {
 	ns, lib *dsl.Namespace
 	prims   map[*dsl.SimpleType]bool // references to primitives (their names may be symbolic): never followed by the oracle
@@ -187,6 +192,22 @@ func c04taBuild(target, carrier, where int, ps, ebase string, edit int) *c04taMo
 		n.TypeDefinitions = append(n.TypeDefinitions, b.alias(ns, "Held", nil, c))
 		steps = []*dsl.ProtocolStep{first, b.step("payload", b.st("Held"))}
 	}
+	if c04taPrior != 0 {
+		warm := b.record(ns, "Warm", nil,
+			b.field("p", b.st("Pair", m.prim(b, "int"), m.prim(b, "int"))),
+			b.field("bx", b.st("Lib.Box", m.prim(b, "int"))),
+			b.field("o", b.st("Opt", m.prim(b, "int"))),
+			b.field("s", b.st("Lib.Seq", m.prim(b, "int"))),
+			b.field("lb", b.st("LocalBox", m.prim(b, "int"))),
+			b.field("nest", b.st("Lib.Box", b.st("Pair", m.prim(b, "int"), m.prim(b, "string")))))
+		n.TypeDefinitions = append(n.TypeDefinitions, warm)
+		ws := b.step("warm", b.st("Warm"))
+		if c04taPrior == 1 {
+			steps = append([]*dsl.ProtocolStep{steps[0], ws}, steps[1:]...)
+		} else {
+			steps = append(steps, ws)
+		}
+	}
 	n.Protocols = []*dsl.ProtocolDefinition{b.protocol(ns, "Proto", steps...)}
 	// an unrelated definition and protocol (must not matter)
 	n.TypeDefinitions = append(n.TypeDefinitions, b.record(ns, "Unrelated", nil, b.field("q", m.prim(b, "string"))))
@@ -283,7 +304,7 @@ func c04taSchema(m *c04taModel) (text string, missing string, ok bool) {
 			listed[td.GetDefinitionMeta().GetQualifiedName()] = true
 		}
 		// fixed order: the names the oracle can produce
-		for _, q := range []string{"Lib.Box", "Lib.Seq", "Lib.Sample", "Ns.Pair", "Ns.Opt", "Ns.LocalBox", "Ns.Sample", "Ns.Holder", "Ns.Held", "Ns.Based"} {
+		for _, q := range []string{"Lib.Box", "Lib.Seq", "Lib.Sample", "Ns.Pair", "Ns.Opt", "Ns.LocalBox", "Ns.Sample", "Ns.Holder", "Ns.Held", "Ns.Based", "Ns.Warm"} {
 			if need[q] && !listed[q] && missing == "" {
 				missing = q
 			}
@@ -312,6 +333,14 @@ func C04TypeArgs(small int) {
 	verifOut("edit", edit)
 	ps := verifOneOf("ps", c04P1...)
 	ebase := verifOneOf("ebase", "uint8", "int64")
+	c04taPrior = 0
+	if carrier < c04taMapValue {
+		nprior := 3
+		if small == 1 {
+			nprior = 2 // quick tier: none / before the carrier
+		}
+		c04taPrior = verifChoose("other-instantiations-of-the-generics", nprior)
+	}
 	structural := carrier >= c04taMapValue
 	s1, missing1, ok1 := c04taSchema(c04taBuild(target, carrier, where, ps, ebase, c04taEditNone))
 	if structural && !ok1 {
